@@ -16,6 +16,12 @@ DECODE_ERRS = {"EXC ConversionError", "EXC AvpDecodeError"}
 
 def classify(line: str, r: str, fails: list, res: Result):
     cmd = line.split(" ", 1)[0]
+    if r == "EXC Timeout(skipped)":
+        return
+    if r.startswith("UNSTABLE"):
+        fails.append({"what": "reading the same malformed value twice gives different outcomes (the decode error is not raised again)",
+                      "line": line[:600], "real": r[:300]})
+        return
     if r == "EXC Timeout":
         fails.append({"what": "decoder did not terminate within the time budget", "line": line[:600], "real": r})
         return
@@ -136,6 +142,16 @@ def run_cases(res: Result, rng: random.Random, n_msgs: int, n_random: int, fails
                         body = wire
                         for code_m, fl in ((257, 0x80), (999, 0x80), (272, 0x00), (8388733, 0x80)):
                             add(f"MSGDEC {(gen.rfc_header(1, 20 + len(body), fl, code_m, 0, 1, 2) + body).hex()} 0")
+    # grouped payloads: valid member(s) followed by a malformed member
+    for i in range(40):
+        good = b"".join(gen.avpobj_wire(rng.choice(pool)) for _ in range(rng.randrange(1, 4)))
+        bad_tails = [b"\x00\x00\x01\x07\x40\x00\x00\x20abcd", b"\x00\x00\x01", gen.rand_bytes(rng, 7),
+                     b"\x00\x00\x01\x07\x40\xff\xff\xffab", gen.rand_bytes(rng, 11)]
+        p = good + rng.choice(bad_tails)
+        add(f"AVPVAL 4 {p.hex()}")
+        wire = gen.rfc_wire(456, 0, 0x40, p)
+        add(f"AVPSTR {wire.hex()}")
+        add(f"MSGDEC {(gen.rfc_header(1, 20 + len(wire), 0x80, rng.choice([272, 999]), 4, 1, 2) + wire).hex()} 0")
     # uniformly random bytes
     for i in range(n_random):
         n = rng.choice([0, 1, 7, 8, 12, 19, 20, 21, 28, 40, 100, rng.randrange(0, 400)])
